@@ -1,7 +1,8 @@
 (* C05Theorems.v — the property theorems of C05 and nothing else.  Each is closed by `exact <lemma>`
    and followed by Print Assumptions (audited by ./check on every run). *)
 From V.lib Require Import Base.
-From V.c05 Require Import C05Model C05FragModel C05OptProofs C05HistProofs C05LazyProofs.
+From V.c05 Require Import C05Model C05FragModel C05OptProofs C05HistProofs C05LazyProofs
+  C05OffProofs C05GhostProofs C05ReadProofs C05RoundProofs.
 
 (* OptimizeTfhdTrun, then encode/decode of the trun (structure level: wire_trun), then
    AddSampleDefaultValues with ANY trex (or none) gives back exactly the samples of the trun, for all
@@ -69,12 +70,53 @@ Theorem C05_history_mdat : forall ops fr cs fr',
 Proof. exact history_full_mdat. Qed.
 Print Assumptions C05_history_mdat.
 
-(* C05_offsets, full statement (NOT proved; explored by the data-offset oracle of the search and by the model
-   correspondence on every data offset): after set_offsets, the trun with write-order number k has data offset
-   moof_size + mdat header + total size of the runs 0..k-1, provided that value is below 2^31 (int32 cast;
-   beyond it the real code wraps silently: known finding C05-F5).
-   Proved part: single-track fragments (one run): the data offset is moof size + the header size of the mdat
-   as it will be written (16 for payloads above 4 GiB, fix a7c3604), under the int32 guard. *)
+(* C05_offsets + tfdt: multi-track fragments under any history of AddFullSampleToTrack with Sample.Size = len(Data).
+   With g the ghost runs of the history (ghost), after SetTrunDataOffsets every trun has data offset
+   moof size + written mdat header + total data size of the runs written before it (run_pos), under the stated
+   int32 guard (beyond it the real code wraps silently: known finding C05-F5); mdat holds the data in op order;
+   each traf holds one trun per run of its track (canon_of: write-order number = run index), the data of the run
+   with index k lies at byte run_pos k of the mdat payload (placed), and tfdt is the decode time of the first
+   sample added to the track. *)
+Theorem C05_offsets : forall tracks ops cs fr,
+  NoDup tracks -> N.of_nat (length ops) < 4294967296 -> forallb is_full_to ops = true ->
+  Forall (fun o => sized_f (op_full o)) ops ->
+  run_ops (create_multi tracks) ops = (cs, Some fr) ->
+  let g := ghost tracks [] ops in
+  let rr := runs_of g in
+  let m := md_size_touch (fr_mdat fr) in
+  let base := moof_size fr + md_header_size m in
+  base + lenN (md_data (fr_mdat fr)) < 2147483648 ->
+  set_offsets fr = fr_with fr (with_offsets fr (fun r => Z.of_N (base + run_pos rr (tr_won r)))) m (fr_next fr) /\
+  md_data (fr_mdat fr) = all_data g /\
+  forall t, In t (fr_trafs fr) ->
+    tf_truns t = map canon_of (specs_of (track_of t) g) /\
+    Forall (placed (md_data (fr_mdat fr)) rr) (specs_of (track_of t) g) /\
+    tf_dt t = tfdt_of (added_fulls tracks (track_of t) ops).
+Proof. exact offsets_multi. Qed.
+Print Assumptions C05_offsets.
+
+(* C05_roundtrip (structure level: box codecs replaced by the wire view of truns, proved for tfhd/trun only as
+   far as C05_optimize_resolve goes; mfhd/tfdt/mdat/extra boxes are positions and sizes).  For every multi-track
+   fragment (pairwise different ids, including tracks that receive nothing), every history of AddFullSampleToTrack
+   (also to unknown ids, which are refused) with Sample.Size = len(Data), optimisation on or off, any sizes of
+   extra boxes before moof / in moof / in trafs / after mdat, any absolute position pos0 and ANY trex: if
+   Fragment.Encode succeeds then Fragment.GetFullSamples(trex) on the decoded fragment returns exactly the full
+   samples added to trex's track, in order, with their bytes, sizes, durations, flags, composition offsets and
+   decode times, provided the added decode times are consistent with the durations and the fragment stays below
+   2 GiB (int32 data offsets). *)
+Theorem C05_roundtrip : forall tracks ops cs fr opt fe pos0 tx,
+  NoDup tracks -> N.of_nat (length ops) < 4294967296 -> forallb is_full_to ops = true ->
+  Forall (fun o => sized_f (op_full o)) ops ->
+  run_ops (create_multi tracks) ops = (cs, Some fr) ->
+  encode_frag opt fr = Ok fe ->
+  moof_size fe + md_header_size (fr_mdat fe) + lenN (md_data (fr_mdat fr)) < 2147483648 ->
+  pos0 + fr_pre fe < 4611686018427387904 ->
+  consistent (added_fulls tracks (tx_track tx) ops) ->
+  get_full_samples (decoded_view fe pos0 []) (Some tx) = Ok (added_fulls tracks (tx_track tx) ops).
+Proof. exact roundtrip_multi_ops. Qed.
+Print Assumptions C05_roundtrip.
+
+(* single-track fragments: the data offset of the only run (all six operations) *)
 Theorem C05_offsets_partial : forall T ops cs fr,
   run_ops (create_fragment T) ops = (cs, Some fr) ->
   let m := md_size_touch (fr_mdat fr) in
@@ -125,4 +167,23 @@ Example C05_history_inv_ex :
 Proof.
   split; [repeat constructor; cbn; intuition congruence|]. split; [reflexivity|].
   eexists. split; [vm_compute; reflexivity|]. split; reflexivity.
+Qed.
+
+(* the hypotheses of C05_roundtrip are satisfiable by a non-trivial history: three tracks, alternating runs, an
+   unknown id, optimisation on, an adversarial trex; the conclusion is also checked by computation *)
+Example C05_roundtrip_ex :
+  let s k := mkSample 16842752 10 k 0 in
+  let ops := [OFullTo 2 (s 1) 100 [1]; OFullTo 2 (s 2) 110 [2;3]; OFullTo 1 (s 1) 0 [4]; OFullTo 9 (s 1) 0 [9];
+              OFullTo 2 (s 1) 120 [5]; OFullTo 3 (s 0) 7 []] in
+  let tx := mkTrex 2 7 9 65536 in
+  NoDup [1; 2; 3] /\ forallb is_full_to ops = true /\ Forall (fun o => sized_f (op_full o)) ops /\
+  consistent (added_fulls [1; 2; 3] (tx_track tx) ops) /\
+  exists fr fe, run_ops (create_multi [1; 2; 3]) ops = ([COk; COk; COk; CErr; COk; COk], Some fr) /\
+                encode_frag true fr = Ok fe /\
+                get_full_samples (decoded_view fe 1000 []) (Some tx)
+                  = Ok [mkFull (s 1) 100 [1]; mkFull (s 2) 110 [2;3]; mkFull (s 1) 120 [5]].
+Proof.
+  split; [repeat constructor; cbn; intuition congruence|]. split; [reflexivity|].
+  split; [repeat constructor|]. split; [split; [cbn; lia|reflexivity]|].
+  eexists; eexists. split; [vm_compute; reflexivity|]. split; [vm_compute; reflexivity|]. vm_compute. reflexivity.
 Qed.
